@@ -3,6 +3,7 @@ package c11
 import (
 	"fmt"
 	"math/big"
+	"strings"
 
 	"github.com/bnb-chain/tss-lib/v2/common"
 	"github.com/bnb-chain/tss-lib/v2/crypto"
@@ -474,7 +475,7 @@ func (e *env) mtaTasks() {
 				{"generic-point", crypto.ScalarBaseMult(ec, generic("bob/wrongX/"+tag, q))},
 			}
 			for _, wx := range wrongs {
-				for _, mode := range []string{"prover-given-X'", "honest-proof-for-X/verified-against-X'"} {
+				for _, mode := range []string{"prover-given-X'", "honest-proof-for-X/verified-against-X'", "proof-made-without-check/verified-against-X'", "proof-made-without-check,U-removed/verified-against-X'"} {
 					wx, mode := wx, mode
 					canon := fmt.Sprintf("bob-wc/wrong-public-point/%s/%s/%s/lib", wx.name, mode, stag)
 					e.add("bob-wc", canon, func(t *task) {
@@ -485,6 +486,10 @@ func (e *env) mtaTasks() {
 						given := XGref
 						if mode == "prover-given-X'" {
 							given = wx.X
+						}
+						noCheck := strings.HasPrefix(mode, "proof-made-without-check")
+						if noCheck {
+							given = nil // the library's prover in its "without check" mode: no U, X not bound
 						}
 						c2 := bobC2(pk, c1, xG, yG, rB)
 						var pf *mta.ProofBobWC
@@ -498,6 +503,13 @@ func (e *env) mtaTasks() {
 							return
 						}
 						m := map[bool]string{true: "prover-given-X'", false: "honest-proof"}[mode == "prover-given-X'"]
+						if noCheck {
+							m = "proof-made-without-check"
+							if strings.Contains(mode, "U-removed") {
+								pf.U = nil
+								m += "-U-removed"
+							}
+						}
 						e.judge(t, "bob-wc/wrong-public-point/"+wx.name+"/"+m, "Bob-WC proof for multiplier x verified against X' = "+wx.name+" != x*G", mkrec(xG, yG, c2, wx.X, pf, mode+"; rand: core.NewDRBG(\"c11/rand/"+canon+"\")"), verify(pf, c2, wx.X))
 					})
 				}
